@@ -32,7 +32,7 @@ PROPS = {
         'trusted': [],
     },
     'C11': {
-        'suites': [('subsh', 1500, 60000), ('w_c11', 150, 5500)],
+        'props': ['C11', 'C11w'], 'suites': [('subsh', 1500, 60000), ('w_c11', 150, 5500)],
         'rule': 'subsh: same generator as sub (40% of subscriptions shared, 2 groups, 3 clients incl. one client in several groups on one filter); '
                 'oracle on the purely-shared and mixed lookups; non-trivial = >=3 ops and at least one lookup returns an entry',
         'assumptions': ['share names contain no "/" (wf_ops)'],
@@ -55,7 +55,7 @@ PROPS = {
         'trusted': ['persistence/queue/mem/verif_hooks.go (VerifShift, VerifReadWouldBlock, VerifDrained)'],
     },
     'C03': {
-        'props': ['C03', 'C03w', 'C03g'], 'suites': [('lim', 2000, 100000), ('w_c03', 250, 10000)],
+        'props': ['C03', 'C03w', 'C03g', 'C03u'], 'suites': [('lim', 2000, 100000), ('w_c03', 250, 10000)],
         'rule': 'lim: random histories of poll/release/batchRelease/markUsed/close on the real packetIDLimiter (limits 1..65535, forced wrap 65535->1 by presetting the cursor); '
                 'non-trivial = a poll returned ids and (a poll blocked or the ids wrapped). '
                 'w_c03: wire scenarios: 1-2 persistent subscriber sessions (v3.1/3.1.1/5, Receive Maximum absent/1/2/3/5/65535, max_inflight 1..65535), a publisher and api_publish, acks prompt/late/out of order/never/'
@@ -97,7 +97,7 @@ PROPS = {
         'trusted': ['harness/wire_runner.go', 'server/verif_hooks.go VerifAdvance'],
     },
     'C01': {
-        'suites': [('w_c01', 300, 12000), ('wv', 200, 8000)],
+        'props': ['C01', 'C01o'], 'suites': [('w_c01', 300, 12000), ('wv', 200, 8000)],
         'rule': 'w_c01: 2-4 clients (v3.1/3.1.1/5) stay connected; SUBSCRIBE/re-SUBSCRIBE/UNSUBSCRIBE over 23 non-shared filters with every QoS x NoLocal x RAP x RetainHandling x subscription id; publishes over 13 topics '
                 '(QoS 0-2, RETAIN, empty and long payloads, v5 properties, inbound aliases, id reuse, retransmissions), api_publish, correct acks only or no acks (windows fill), both delivery modes, OnSubscribe hook in 1/4; '
                 'oracle: every received PUBLISH is a due copy (topic, payload, properties, QoS = min, RETAIN = published and RAP, subscription ids as a set, DUP 0), one copy per matching subscription (overlap) / one at the highest QoS (onlyonce), '
